@@ -28,7 +28,7 @@ CONSTANTS
   NIn, SsIn, FullIn, StIn,   \* bit depths, <<ssx, ssy>> pairs, {0,1}, storage {8,16}
   MaxCalls,
   FreshOnly,        \* TRUE: constructors are only called by a client that holds no image (prunes re-construction)
-  Quirks            \* [lin_to_yuv_raw_cfg : BOOLEAN, rgb_to_yuv_panics_on_odd : BOOLEAN]
+  Quirks            \* [lin_to_yuv_raw_cfg, rgb_to_yuv_panics_on_odd, lin_to_rgb_primaries_first : BOOLEAN] (F3, F4a, F8 as found)
 
 VARIABLES img, last, ncalls
 vars == <<img, last, ncalls>>
@@ -101,7 +101,8 @@ RgbToLinF(i) ==
 LinToRgbF(i, tc, cp) ==
   LET t == ResolveRgbTc(tc)  p == ResolveRgbCp(cp)
       r3 == S3Pinned(p)  r2 == S2Pinned(t) IN
-  IF r3 # "ok" THEN Fail(r3) ELSE IF r2 # "ok" THEN Fail(r2)
+  \* the transfer is validated before the primaries are converted, as in RgbToLinF (F8: the code as found converted first)
+  IF Quirks.lin_to_rgb_primaries_first /\ r3 # "ok" THEN Fail(r3) ELSE IF r2 # "ok" THEN Fail(r2) ELSE IF r3 # "ok" THEN Fail(r3)
   ELSE Ret("ok", [FloatImg("rgb", i.w, i.h) EXCEPT !.tc = t, !.cp = p, !.etc = t, !.ecp = p])
 
 \* cfg = [mc, tc, cp, full, n, ssx, ssy, st].  `asserted`: the transfer/primaries of the result are the
